@@ -62,11 +62,21 @@ where
             // tracing::trace!("new entry for {}", id);
             self.queue.insert(id, ReassembleQueue::new(total, seq, buf));
             self.timer.push_back((id, Instant::now() + self.timeout));
+            #[cfg(redproxy_verif)]
+            if let Some(last) = self.timer.back_mut() {
+                last.1 += crate::vtrace::skew();
+            }
             None
         }
     }
+    #[cfg(redproxy_verif)]
+    pub fn queue_len(&self) -> usize {
+        self.queue.len()
+    }
     pub fn timer(&mut self) {
         let now = Instant::now();
+        #[cfg(redproxy_verif)]
+        let now = now + crate::vtrace::skew();
         for _ in 0..self.timer.partition_point(|x| x.1 < now) {
             let id = self.timer.pop_front().unwrap().0;
             self.queue.remove(&id);
